@@ -49,7 +49,9 @@ var dstRequired = map[string][]string{
 		"tsdb/dst/day/touches_25h-day-25th-hour", "tsdb/dst/day/touches_23h-day",
 		"tsdb/dst/month/live/range_queries_inside_25h-day-25th-hour_with_hits", "tsdb/dst/month/live/range_queries_inside_first-hour-after-23h-day_with_hits",
 		"tsdb/dst/month/reopened/range_queries_inside_25h-day-25th-hour_with_hits"},
-	"plan":   {"plan/dst/requests_on_slot_grid_shifted_by_transition_inside_family/year", "plan/dst/requests_starting_or_ending_on_transition_day"},
+	"plan": {"plan/dst/requests_on_slot_grid_shifted_by_transition_inside_family/year", "plan/dst/requests_starting_or_ending_on_transition_day"},
+	"conc": {"conc/dst/timestamps_23h-day", "conc/dst/timestamps_25h-day", "conc/dst/timestamps_25h-day-25th-hour",
+		"conc/dst/timestamps_first-hour-after-23h-day", "conc/broker/dst/day/rows_25h-day-25th-hour", "conc/broker/dst/month/rows_23h-day"},
 	"rollup": {"rollup/dst/month/points_25h-day-25th-hour", "rollup/dst/month/points_23h-day", "rollup/dst/month/dense_source_slots_in_25th_hour"},
 }
 
@@ -114,6 +116,15 @@ func (r *rec) Violation(class, msg string, witness interface{}) {
 	}
 	r.Violations[class] = &recViolation{Class: class, Message: msg, Witness: witness, Count: 1}
 }
+
+// bump adds n observations to a class that is already recorded.
+func (r *rec) bump(class string, n int) {
+	r.mu.Lock()
+	if v, ok := r.Violations[class]; ok {
+		v.Count += n
+	}
+	r.mu.Unlock()
+}
 func (r *rec) write(path string) {
 	r.mu.Lock()
 	defer r.mu.Unlock()
@@ -162,7 +173,11 @@ func main() {
 		"(zone, option set, storage interval, range-length bucket, edge kind) for planner cases; " +
 		"zones that move their clock (America/New_York, Europe/Berlin) additionally get every hour of their 23 h / 25 h local days as oversampled batch/plan anchors, " +
 		"a seeded selection of those days (thorough: all) as tsdb touch/query targets (start+23h, start+24h, real day end, first hour of the next day) and as rollup source hours; " +
-		"a run in which such a zone did not reach these situations (counters */dst/*) is inconclusive")
+		"a run in which such a zone did not reach these situations (counters */dst/*) is inconclusive; " +
+		"part conc: per zone 12 (thorough 16) goroutines of one process, released together behind a barrier, each walk an own seeded list of timestamps of different local days/months/years " +
+		"(neighbouring days, months, years of a shared anchor day, both sides of the boundaries, days on which the clock is moved) through all calculator entry points and the broker family iterator; " +
+		"fixed operation counts, overlap measured by the other goroutines' operation counters, fewer than 200 passes or 1000 operations of a child overlapped => inconclusive")
+	c.Assume("the calculators returned by Interval.Calculator() are process-wide singletons shared by all shards, write goroutines and queries: every answer given while other goroutines use them, and afterwards, must equal the sequential answer")
 	c.Assume("Go's time package (time.Date / time.LoadLocation with an explicit *Location) is a correct calendar; the oracle never calls lindb's IntervalCalculator")
 	c.Assume("UTC, Asia/Shanghai, Asia/Kolkata (+05:30), America/New_York and Europe/Berlin (daylight saving: 23 h and 25 h local days) all decide; " +
 		"on a day on which the clock is moved the hour families of a day-type segment are numbered by elapsed hours since local midnight (the statement asks for containment, tiling and stability, not for the clock label)")
@@ -196,6 +211,10 @@ func main() {
 			jobs = append(jobs, job{"plan", z.name, z.dst, z.light, s, nPlan})
 		}
 		jobs = append(jobs, job{"broker", z.name, z.dst, z.light, 0, 1})
+		nConc := c.Pick(1, 4)
+		for s := 0; s < nConc; s++ {
+			jobs = append(jobs, job{"conc", z.name, z.dst, z.light, s, nConc})
+		}
 		for s := 0; s < nTsdb; s++ {
 			jobs = append(jobs, job{"tsdb", z.name, z.dst, z.light, s, nTsdb})
 		}
@@ -204,7 +223,7 @@ func main() {
 		}
 	}
 	// longest first
-	order := map[string]int{"rollup": 0, "tsdb": 1, "calc": 2, "plan": 3, "broker": 4}
+	order := map[string]int{"rollup": 0, "tsdb": 1, "calc": 2, "plan": 3, "broker": 4, "conc": 5}
 	sort.SliceStable(jobs, func(i, k int) bool { return order[jobs[i].part] < order[jobs[k].part] })
 
 	watchdog := time.Duration(c.Pick(600, 4800)) * time.Second
@@ -215,7 +234,7 @@ func main() {
 	if workers > 16 {
 		workers = 16
 	}
-	core.Parallel(len(jobs), workers, func(i int) {
+	runJob := func(i int) {
 		j := jobs[i]
 		dir := filepath.Join(scratch, j.name())
 		_ = os.MkdirAll(dir, 0o755)
@@ -241,7 +260,27 @@ func main() {
 			return
 		}
 		results[i] = r
-	})
+	}
+	// the children of part conc run many goroutines each: they are run one after the other next to the worker pool (not
+	// inside it, not all at once), so that their goroutines compete with single-threaded children and not with each other
+	var concIdx, poolIdx []int
+	for i, j := range jobs {
+		if j.part == "conc" {
+			concIdx = append(concIdx, i)
+		} else {
+			poolIdx = append(poolIdx, i)
+		}
+	}
+	var concDone sync.WaitGroup
+	concDone.Add(1)
+	go func() {
+		defer concDone.Done()
+		for _, i := range concIdx {
+			runJob(i)
+		}
+	}()
+	core.Parallel(len(poolIdx), workers, func(k int) { runJob(poolIdx[k]) })
+	concDone.Wait()
 
 	jobWall := map[string]float64{}
 	for i, j := range jobs {
@@ -303,6 +342,18 @@ func main() {
 				if zoneCounters[z.name][n] == 0 {
 					c.Inconclusive("zone %s part %s never observed %q (daylight-saving situation not reached)", z.name, part, n)
 				}
+			}
+		}
+	}
+	// every zone must have used the shared calculators from several goroutines at the same time
+	for _, z := range zones {
+		if !zoneParts[z.name]["conc"] {
+			continue // the child failed, already reported above
+		}
+		for _, n := range []string{"conc/passes_overlapped(other_goroutines_advanced_during_the_pass)", "conc/day/timestamps", "conc/month/timestamps",
+			"conc/year/timestamps", "conc/broker/batches_spanning_several_local_days", "conc/after/day/timestamps"} {
+			if zoneCounters[z.name][n] == 0 {
+				c.Inconclusive("zone %s part conc never observed %q", z.name, n)
 			}
 		}
 	}
@@ -378,6 +429,8 @@ func childMain(args []string) {
 		runTsdb(env)
 	case "rollup":
 		runRollup(env)
+	case "conc":
+		runConc(env)
 	default:
 		r.Inconclusive("unknown part %s", part)
 	}
